@@ -169,6 +169,15 @@ def run_fields(ctx, p):
                 ("displacement", "strain_rr", "strain_qq", "stress_rr", "stress_qq", "pressure"))
     ctx.observe("wave.front", "Blake", ahead == 0.0 and np.all(sol["density"][2:] == rho),
                 measure=ahead, detail=dict(front=front, points=pts[2:].tolist()))
+    # -- the same object on a second grid with as many points as the first (a graded grid, a shifted stencil): the fields are
+    #    those of a solver that has never seen the first grid
+    pts_b = a + (pts - a) * 0.83 + 1e-3 * a
+    sol_b = ctx.call(s, pts_b, t)
+    s_new = ctx.make(Blake, ref_density=p["ref_density"], cavity_radius=p["cavity_radius"], pressure_scale=p["pressure_scale"], **p["given"])
+    sol_n = ctx.call(s_new, pts_b, t)
+    same = all(np.array_equal(np.asarray(sol_b[f], float), np.asarray(sol_n[f], float), equal_nan=True) for f in sol_b.dtype.names)
+    ctx.observe("fields.kinematic", "Blake", same, branch="second grid of the same length on a used solver = on a fresh one",
+                detail=dict(t=t, grid=pts_b.tolist()[:4]))
     # -- interior probes ----------------------------------------------------------------------
     for f in p["fracs"]:
         r0 = a + f * (front - a)
